@@ -308,3 +308,37 @@ pub fn cursor_buf_mut_then_read() {
     let r = <Cursor<u8, Vec<u8>> as ReadWords<u8, Stack>>::read(&mut c);
     let _ = r;
 }
+
+/// C17: turning a buffer into a reader puts the cursor where the semantics says the data starts:
+/// stack readers start at the write end (last word first), queue readers at the beginning; the
+/// borrowed variants behave the same and leave the buffer untouched.
+#[cfg_attr(kani, kani::proof)]
+#[cfg_attr(kani, kani::unwind(6))]
+pub fn into_and_as_read_words() {
+    use constriction::backends::{AsReadWords, IntoReadWords};
+    let d = any_arr::<u8, 3>();
+    let n: usize = any(); assume(n <= 3);
+    let mut v: Vec<u8> = Vec::with_capacity(4);
+    let mut i = 0; while i < n { v.push(d[i]); i += 1; }
+    let grp = group(4);
+    if grp == 0 {
+        let mut r = IntoReadWords::<u8, Stack>::into_read_words(v);
+        let mut i = n; while i > 0 { assert!(matches!(ReadWords::<u8, Stack>::read(&mut r), Ok(Some(x)) if x == d[i - 1]), "C17: stack reader made from a buffer must return its words last first"); i -= 1; }
+        assert!(matches!(ReadWords::<u8, Stack>::read(&mut r), Ok(None)), "C17: stack reader made from a buffer has extra words");
+    } else if grp == 1 {
+        let mut r = IntoReadWords::<u8, Queue>::into_read_words(v);
+        let mut i = 0; while i < n { assert!(matches!(ReadWords::<u8, Queue>::read(&mut r), Ok(Some(x)) if x == d[i]), "C17: queue reader made from a buffer must return its words in order"); i += 1; }
+        assert!(matches!(ReadWords::<u8, Queue>::read(&mut r), Ok(None)), "C17: queue reader made from a buffer has extra words");
+    } else if grp == 2 {
+        {
+            let mut r = AsReadWords::<u8, Stack>::as_read_words(&v);
+            assert!(BoundedReadWords::<u8, Stack>::remaining(&r) == n, "C17: borrowed stack reader reports the wrong number of remaining words");
+            if n > 0 { assert!(matches!(ReadWords::<u8, Stack>::read(&mut r), Ok(Some(x)) if x == d[n - 1]), "C17: borrowed stack reader must start at the last word"); }
+        }
+        assert!(v.len() == n, "C17: borrowing a reader changed the buffer");
+    } else {
+        let mut r = AsReadWords::<u8, Queue>::as_read_words(&v);
+        assert!(BoundedReadWords::<u8, Queue>::remaining(&r) == n, "C17: borrowed queue reader reports the wrong number of remaining words");
+        if n > 0 { assert!(matches!(ReadWords::<u8, Queue>::read(&mut r), Ok(Some(x)) if x == d[0]), "C17: borrowed queue reader must start at the first word"); }
+    }
+}
